@@ -51,7 +51,8 @@ theorem shardArrays_flatten (B : Nat) (hB : 1 ≤ B) (c : Option Cond) (lo hi : 
   | none =>
     have : condOK none = fun _ => true := rfl
     simp only [shardArrays]
-    rw [Shard.arrays_flatten, this, List.filter_true]
+    rw [Shard.arrays_flatten, this]
+    exact (List.filter_eq_self.mpr (fun _ _ => rfl)).symm
   | some c =>
     have : condOK (some c) = fun p => c.eval p.2 := rfl
     simp only [shardArrays, reblock]
@@ -72,6 +73,7 @@ theorem filter_flatMap' {β γ : Type} (p : γ → Bool) (f : β → List γ) (l
 /-! ### sorting and runs, for any strict total order on the keys -/
 
 section Srt
+set_option linter.unusedSectionVars false
 variable {ρ κ : Type} [LT κ] [DecidableLT κ] [DecidableEq κ]
 
 /-- what is needed of `<` on the keys -/
